@@ -324,6 +324,25 @@ Definition E_FIELDS := 1.
 Definition E_NONUNIQUE := 2.
 Definition E_NUMBER := 3.
 
+Definition E_GEOMETRY := 5.
+
+(** The validation ReadFrom applies to every record (geometries that Position
+    and Seq cannot work with are rejected): Length, Start, BasesPerLine not
+    negative; BasesPerLine 0 only with Length 0; BytesPerLine >= BasesPerLine;
+    and, when BasesPerLine is not 0, the offset of the last base representable:
+    with room = MaxInt64 - BasesPerLine, Start <= room and
+    Length/BasesPerLine <= (room-Start)/BytesPerLine. *)
+Definition geometry_ok (r : frec) : bool :=
+  if r_len r <? 0 then false
+  else if r_start r <? 0 then false
+  else if (r_bases r <? 0) || ((r_bases r =? 0) && negb (r_len r =? 0)) then false
+  else if r_bytes r <? r_bases r then false
+  else if negb (r_bases r =? 0) then
+    let room := (2^63 - 1) - r_bases r in
+    if (room <? r_start r) || (Z.quot (room - r_start r) (r_bytes r) <? Z.quot (r_len r) (r_bases r)) then false
+    else true
+  else true.
+
 Definition rf_line (idx : list frec) (line : list Z) : outcome (list frec) :=
   let body := chomp line in
   if is_nil body then Ok idx                       (* csv skips empty lines *)
@@ -331,7 +350,8 @@ Definition rf_line (idx : list frec) (line : list Z) : outcome (list frec) :=
        | [f0; f1; f2; f3; f4] =>
          if has_name f0 idx then Err E_NONUNIQUE
          else match parse_int f1, parse_int f2, parse_int f3, parse_int f4 with
-              | Some a, Some b, Some c, Some d => Ok (idx ++ [mkRec f0 a b c d])
+              | Some a, Some b, Some c, Some d =>
+                if geometry_ok (mkRec f0 a b c d) then Ok (idx ++ [mkRec f0 a b c d]) else Err E_GEOMETRY
               | _, _, _, _ => Err E_NUMBER
               end
        | _ => Err E_FIELDS
